@@ -1129,11 +1129,11 @@ RULES = [
     ("C01-R1", r1_coef_identities, 150),
     ("C01-R1b", r1b_regime_selectors, 14),
     ("C01-R3", r3_partition_typing, 60),
-    ("C01-R4", r4_frame_typing, 14),
+    ("C01-R4", r4_frame_typing, 19),
     ("C01-R6", r6_equilibrium_acceleration, 11),
     ("C01-R7", r7_subspace_typing, 12),
     ("C01-R8", r8_solveexp1, 14),
-    ("C01-R9", r9_solveexp2, 18),
+    ("C01-R9", r9_solveexp2, 19),
     ("C01-R10", r10_real_unc_batch, 4),
     ("C01-R11", r11_complex_unc_batch, 24),
 ]
